@@ -14,7 +14,7 @@ import subprocess
 
 import common
 
-PROFILES = ["jmixed", "jloss", "jmn"]
+PROFILES = ["jmixed", "jopen", "jloss", "jmn"]
 BUDGET = {"quick": (25, 4, 70, 8), "thorough": (50, 24, 100, 64)}  # runs/shard, shards/profile, steps, torn offsets
 
 # formulas evaluated by this engine, by property
